@@ -190,6 +190,10 @@ fn check_packer<V: VariableLenPack + BorshSerialize + PartialEq + std::fmt::Debu
     }
 }
 
+fn hexcap(b: &[u8]) -> String {
+    if b.len() > 20_000 { format!("{}... ({} bytes in all)", emit::hex(&b[..20_000]), b.len()) } else { emit::hex(b) }
+}
+
 pub fn run(ctx: &Ctx) -> Report {
     let mut rep = Report::new("C15");
     rep.corr_module = "AccountRealloc".into();
@@ -228,15 +232,29 @@ pub fn run(ctx: &Ctx) -> Report {
         let to_coq = k < n_coq;
         // build an account with several entries through the real TLV API
         let nent = rng.range(1, 5) as usize;
+        // values above the runtime's 10 KiB growth budget (a shrink followed by a larger regrowth is legal
+        // as long as the account stays within original size + 10 KiB), and an account at the 10 MiB mark
+        let mode_big = !to_coq && k % 11 == 3;
+        let mode_huge = !to_coq && (k == n_coq + 1 || k == n_coq + 12);
+        if mode_big { rep.count("account:value>10KiB"); }
+        if mode_huge { rep.count("account:10MiB"); }
         let mut o = Oracle { n: 0, es: vec![] };
-        for _ in 0..nent {
+        for j in 0..nent {
             let t = rng.below(tlv::NTAGS as u64) as usize;
-            let l = match rng.below(6) { 0 => 0, 1 => 4, _ => rng.below(40) as usize };
+            let l = if mode_big && j == nent / 2 { rng.range(10_300, 14_000) as usize } else { match rng.below(6) { 0 => 0, 1 => 4, _ => rng.below(40) as usize } };
             let borsh = rng.chance(1, 2);
             let payload = rng.bytes(l);
             o.es.push((t, var_enc(&payload, borsh)));
         }
-        let spare = match rng.below(4) { 0 => 0, 1 => rng.range(1, 11) as usize, _ => rng.below(60) as usize };
+        let mut spare = match rng.below(4) { 0 => 0, 1 => rng.range(1, 11) as usize, _ => rng.below(60) as usize };
+        if mode_huge {
+            // one more entry filling the account up to 10 MiB - 50 bytes
+            let fill = 10 * 1024 * 1024 - 50 - o.used() - 12;
+            let mut v = vec![0x5au8; fill];
+            v[..4].copy_from_slice(&((fill - 4) as u32).to_le_bytes());
+            o.es.push((4, v));
+            spare = 0;
+        }
         o.n = o.used() + spare;
         let init = o.render();
         // sanity: the real library reads it
@@ -262,6 +280,8 @@ pub fn run(ctx: &Ctx) -> Report {
             let cur = o.find(t, r).map(|i| o.es[i].1.len()).unwrap_or(8);
             let room = cur.saturating_sub(if borsh { 4 } else { 0 });
             let l = match rng.below(14) {
+                _ if mode_huge && cur < 1000 => room + *rng.pick(&[50usize, 49, 51]),
+                _ if mode_big && rng.chance(1, 2) => *rng.pick(&[100usize, 10_239, 10_240, 10_241, 11_000, 12_000, cur.saturating_sub(10_241), cur + 10_236]),
                 0 => room,
                 1 => room + 1,
                 2 => room.saturating_sub(1),
@@ -288,7 +308,7 @@ pub fn run(ctx: &Ctx) -> Report {
                 }
                 None => false,
             };
-            let det = |what: &str| serde_json::json!({"initial_account": emit::hex(&init), "ops": ops_done, "what": what, "observed": format!("{:?}", got),
+            let det = |what: &str| serde_json::json!({"initial_account": hexcap(&init), "ops": ops_done, "what": what, "observed": format!("{:?}", got),
                 "before_len": before.len(), "after_len": after.len()}).to_string();
             if got.is_panic() {
                 rep.violate("rp-panic", "realloc_and_pack panicked", det("panic"));
@@ -306,7 +326,7 @@ pub fn run(ctx: &Ctx) -> Report {
                 let want = o.render();
                 if after != want {
                     rep.violate("rp-layout", "after storing the value the account is not exactly (other entries byte-identical, size changed by the encoded-size difference, zero spare tail of the same size)",
-                        serde_json::json!({"initial_account": emit::hex(&init), "ops": ops_done, "observed": emit::hex(&after), "expected": emit::hex(&want)}).to_string());
+                        serde_json::json!({"initial_account": hexcap(&init), "ops": ops_done, "observed": hexcap(&after), "expected": hexcap(&want)}).to_string());
                 }
                 if after.len() != before.len() + enc.len() - old {
                     rep.violate("rp-size", "the account did not grow/shrink by exactly the change in the encoded size", det("size"));
